@@ -11,12 +11,13 @@ elab "#audit_module " id:ident : command => do
   for (n, ci) in env.constants.map₁.toList do
     if env.getModuleIdxFor? n == some idx then
       if let .thmInfo _ := ci then
-        if n.isInternal then continue
+        let un := (privateToUserName? n).getD n
+        if un.isInternal then continue
         -- skip auto-generated equation / match lemmas (`f.eq_1`, `f.match_1.eq_2`, …)
-        let last := n.getString!
+        let last := un.getString!
         if last.startsWith "eq_" || last.startsWith "match_" || last.startsWith "proof_" then continue
         let axs ← Lean.collectAxioms n
         let l := ",".intercalate (axs.toList.map toString)
-        out := out.push s!"AUDIT {id.getId} {n} [{l}]"
+        out := out.push s!"AUDIT {id.getId} {un} [{l}]"
   for s in out.qsort (· < ·) do
     IO.println s
